@@ -26,6 +26,12 @@ class Source:
                 t = f.read()
             self.text[m] = t
             self.mods[m] = ast.parse(t, filename=p)
+        # ghost lemmas: sidecar source, never part of /repo (DESIGN §3.2 'Ghost code')
+        lp = os.path.join(os.path.dirname(os.path.dirname(os.path.abspath(__file__))), "contracts", "lemma_src.py")
+        if os.path.exists(lp):
+            t = open(lp, encoding="utf8").read()
+            self.text["lemma"] = t
+            self.mods["lemma"] = ast.parse(t, filename=lp)
         self.classes: dict[str, tuple[str, ast.ClassDef]] = {}
         self.functions: dict[str, tuple[str, ast.FunctionDef]] = {}
         for m, mod in self.mods.items():
@@ -34,6 +40,8 @@ class Source:
                     self.classes[st.name] = (m, st)
                 elif isinstance(st, ast.FunctionDef):
                     self.functions[f"nutree.{m}.{st.name}"] = (m, st)
+                    if m == "lemma":
+                        self.functions[f"lemma.{st.name}"] = (m, st)
 
     # ------------------------------------------------------------
     def mro(self, cls: str) -> list[str]:
@@ -83,6 +91,8 @@ class Source:
     def lookup(self, qual: str):
         """'nutree.node.Node.move_to' | 'nutree.common.call_predicate' -> (module, FunctionDef)."""
         parts = qual.split(".")
+        if len(parts) == 2 and parts[0] == "lemma":
+            return self.functions.get(qual, (None, None))
         if len(parts) == 3:
             return self.functions.get(qual, (None, None))
         if len(parts) == 4:
